@@ -36,6 +36,7 @@ class Ctx:
         self.fds = {}  # fd -> path, for descriptors opened on sandbox paths via os.open/mkstemp
         self.cpu_count = cpu_count
         self.dir_rng = dir_rng
+        self.dir_salt = dir_rng
         self.unsimulated = []  # names of concurrency primitives we saw but do not simulate
 
     # -- helpers
@@ -578,10 +579,17 @@ def install():
     shutil.copyfile = make_copy("copyfile", None)
 
     # ---- directory order
-    def _permute(c, items):
+    def _permute(c, items, where=""):
+        # POSIX promises no order, but an unchanged directory answers the same way every time: the
+        # permutation is a function of (run's directory salt, directory or pattern, listing), the
+        # same for every call and every process of the run
         items = sorted(items, key=lambda x: os.fspath(x) if not hasattr(x, "name") else x.name)
-        if c.dir_rng is not None and len(items) > 1:
-            c.dir_rng.shuffle(items)
+        if c.dir_salt is not None and len(items) > 1:
+            import hashlib
+
+            names = [os.fspath(x) if not hasattr(x, "name") else x.name for x in items]
+            seed = int.from_bytes(hashlib.sha256(repr((c.dir_salt, str(where), names)).encode()).digest()[:8], "big")
+            random.Random(seed).shuffle(items)
         return items
 
     def s_glob(pathname, *a, **kw):
@@ -591,7 +599,7 @@ def install():
         with c.real():
             r = R["glob"](pathname, *a, **kw)
         if len(r) > 1 and all(c.mine(x) for x in r):
-            r = _permute(c, r)
+            r = _permute(c, r, os.fspath(pathname))
             c.before("glob", os.fspath(pathname), list(r))
             c.after("glob", os.fspath(pathname))
         return r
@@ -602,7 +610,7 @@ def install():
             return R["listdir"](path)
         with c.real():
             r = R["listdir"](path)
-        return _permute(c, r)
+        return _permute(c, r, c.rel(path))
 
     def s_scandir(path="."):
         c = _active(path)
@@ -611,7 +619,7 @@ def install():
         with c.real():
             with R["scandir"](path) as it:
                 r = list(it)
-        return _ScandirResult(_permute(c, r))
+        return _ScandirResult(_permute(c, r, c.rel(path)))
 
     _glob.glob = s_glob
     os.listdir = s_listdir
